@@ -966,3 +966,10 @@ def replay(res, path):
   print("pytype :", {k: v for k, v in rr.items() if k in ("status", "exc", "msg", "errors", "pytype_frame", "frames")})
   print("oracle :", cat, viol)
   return 1 if viol else 0
+
+
+def generate():
+  """Called by harness/setup.py before the Coq build (coq/Generated is not committed)."""
+  common.bootstrap_pytype()
+  text, _ = generate_v()
+  common.write_if_changed(GEN_V, text)
